@@ -1053,7 +1053,12 @@ def gen_checking(ev):
                "   (false, false) = goes on to hash the outputs *)\n"
                "Definition try_skip_phase1_gen (new_run_ok inp_equal : bool) : bool * bool :=\n"
                "  let reset := false in\n  " + t.block(body[:k], None) + ".")
-    P2RET = "(finalized_failed, reset, outs_recorded_succeeded, completed)"
+    P2RET = "(finalized_failed, reset, outs_recorded_succeeded, completed, skip_reported, repended, rp_state, rp_deferred)"
+    rechecks = []
+
+    def recheck_stmt(m):
+        rechecks.append(True)
+        return ""
 
     def completed(m):
         if m.group("h") != "new_hash" or m.group("d") != "False":
@@ -1064,19 +1069,62 @@ def gen_checking(ev):
         ("await self._finalize_failed_run(run)", "let finalized_failed := true in"),
         ("await self._noskip(run, step_hash, new_hash)", ""),
         ("await self._reset_step_to_pending(step)", "let reset := true in"),
-        ("await self._skip(run, step_hash)", ""),
+        ("await self._skip(run, step_hash)", "let skip_reported := true in"),
         ("self.workflow.update_file_hashes(new_out_hashes, cause=HashUpdateCause.SUCCEEDED)",
          "let outs_recorded_succeeded := true in"),
         (R(r"step\.mark_completed\((?P<h>\w+), (?P<d>\w+)\)"), completed),
         ("self._report_step_counts()", ""),
+        # the shape proposed for finding D37: the records of the inputs are compared once more with the
+        # hashes the job was created with, inside the transaction that records the skip
+        (R(r"overtaken = self\._inputs_overtaken\(step, inp_hashes\)"), recheck_stmt),
+        (SET_STATE, set_state_rep("rp_")),
     ], [], final=P2RET, inline_db=True,
         cond_fn=_bool_expr("try_skip_job.phase2", {"new_hash is None": "(negb out_hash_ok)",
-                                                     "new_hash is not None": "out_hash_ok"}, digests2))
+                                                     "new_hash is not None": "out_hash_ok",
+                                                     "overtaken": "overtaken"}, digests2))
+    phase2 = t.block(body[k + 1:], None)
+    phase2 = phase2.replace("let rp_state_set := true in", "let repended := true in")
     out.append("(* Executor.try_skip_job after the output hashing: (_finalize_failed_run called, reset to pending,\n"
-               "   update_file_hashes(new_out_hashes, SUCCEEDED) called, mark_completed(new_hash, False) called) *)\n"
-               "Definition try_skip_phase2_gen (out_hash_ok inp_equal out_equal : bool) : bool * bool * bool * bool :=\n"
+               "   update_file_hashes(new_out_hashes, SUCCEEDED) called, mark_completed(new_hash, False) called,\n"
+               "   SKIP reported, set_state called instead because an input record was overtaken, its state, its\n"
+               "   deferred flag).\n"
+               "   `overtaken` = the result of Executor._inputs_overtaken when try_skip_job calls it. *)\n"
+               "Definition try_skip_phase2_gen (out_hash_ok inp_equal out_equal overtaken : bool)\n"
+               "    : bool * bool * bool * bool * bool * bool * N * bool :=\n"
                "  let finalized_failed := false in let reset := false in let outs_recorded_succeeded := false in\n"
-               "  let completed := false in\n  " + t.block(body[k + 1:], None) + ".")
+               "  let completed := false in let skip_reported := false in let repended := false in\n"
+               "  let rp_state := 0 in let rp_deferred := false in\n  "
+               + phase2 + ".")
+    if len(rechecks) > 1:
+        raise TranslatorError("try_skip_job: _inputs_overtaken is called more than once")
+    FS = ev["FileState"]
+    if rechecks:
+        if "overtaken" not in phase2.replace("(out_hash_ok inp_equal out_equal overtaken", ""):
+            raise TranslatorError("try_skip_job: the result of _inputs_overtaken is not used")
+        f = find_function(etree, "_inputs_overtaken", "Executor")
+        if [a.arg for a in f.args.args] != ["step", "start_hashes"]:
+            raise TranslatorError("_inputs_overtaken signature changed")
+        fb = body_without_docstring(f)
+        ft = [_norm(x) for x in fb]
+        if len(fb) != 4 or ft[0] != "records = list(step.inp_paths())" \
+                or ft[1] != "if len(records) != len(start_hashes): return True" \
+                or not isinstance(fb[2], ast.For) or _norm(fb[2].target) != "rec" or _norm(fb[2].iter) != "records" \
+                or ft[3] != "return False":
+            raise TranslatorError(f"_inputs_overtaken: skeleton changed: {ft}")
+        t2 = Table("_inputs_overtaken.loop", [("return True", ("return", "true"))], [
+            (R(r"rec\.state not in (?P<set>\(.*\))"), lambda m: f"(negb {fs_in(ev, 'st')(m)})"),
+            ("start_hashes.get(rec.path) != rec.hash", "(negb same_hash)"),
+        ], final="false")
+        out.append("(* try_skip_job re-reads the records of the inputs in the transaction that records the skip *)\n"
+                   "Definition skip_rechecks_inputs : bool := true.\n"
+                   "(* one iteration of the loop of Executor._inputs_overtaken (after the comparison of the number of\n"
+                   "   records with the number of hashes the job was created with) *)\n"
+                   "Definition overtaken_record_gen (st : N) (same_hash : bool) : bool :=\n  "
+                   + t2.block(fb[2].body, None) + ".")
+    else:
+        out.append("(* try_skip_job does not re-read the records of the inputs when it records the skip (finding D37) *)\n"
+                   "Definition skip_rechecks_inputs : bool := false.\n"
+                   "Definition overtaken_record_gen (st : N) (same_hash : bool) : bool := false.")
     # record_run_started / _run_command are called by execute_job only
     for name in ("validate_dynamic_job", "try_skip_job"):
         txt = ast.unparse(find_function(etree, name, "Executor"))
